@@ -26,7 +26,7 @@ simfile = X.simfile
 SMSimfile, SSCSimfile, SMChart, SSCChart = X.SMSimfile, X.SSCSimfile, X.SMChart, X.SSCChart
 
 LEVEL = "model_checking"
-NAMES = ["x.sm", "x.ssc", "X.SM", "x.SSC", "x.txt", "x.sm.bak", "ssc", "sm"]
+NAMES = ["x.sm", "x.ssc", ".SM", ".SSC", "x.txt", "x.sm.bak", "ssc", "sm"]  # ".SM" / ".SSC": upper case and nothing before the dot
 
 
 def translate(text):
